@@ -81,6 +81,9 @@ type RunCfg struct {
 	// Stalls: at controller step AtStep every process of the machine stops for D of
 	// simulated time (a hung file server, a frozen VM): nothing runs, the clock goes on
 	Stalls           []StallSpec
+	// Overrides is the content of the --overrides file: partially qualified node
+	// name -> {"force_volatile": bool, "chunk.threads": x, ...}
+	Overrides        map[string]map[string]interface{}
 	MarkSuperseded   bool   // an attempt that finds itself replaced produces recognisably different outputs
 	OutKinds         bool   // a file-typed output may be missing, a symlink, or a path outside the pipestance (C13)
 	Companions       bool   // stages may write x.idx next to an output file x
@@ -419,6 +422,12 @@ func (r *Run) writeProgram(p *Prog) error {
 	if err := os.WriteFile(path.Join(r.MroDir, "stagebin"), []byte("#!/bin/false\n"), 0755); err != nil {
 		return err
 	}
+	if len(r.Cfg.Overrides) > 0 {
+		b, _ := json.MarshalIndent(r.Cfg.Overrides, "", "  ")
+		if err := os.WriteFile(path.Join(r.MroDir, "overrides.json"), b, 0644); err != nil {
+			return err
+		}
+	}
 	return os.WriteFile(path.Join(r.MroDir, "pipeline.mro"), []byte(p.Source()), 0644)
 }
 
@@ -430,6 +439,9 @@ func (r *Run) mrpArgs() []string {
 	args := []string{"mrp", path.Join(r.MroDir, "pipeline.mro"), "ps",
 		"--psdir=" + r.PsDir, "--disable-ui", "--jobmode=" + jm}
 	args = append(args, r.Cfg.Flags...)
+	if len(r.Cfg.Overrides) > 0 {
+		args = append(args, "--overrides="+path.Join(r.MroDir, "overrides.json"))
+	}
 	return args
 }
 
@@ -824,4 +836,46 @@ func sortedStrings(m map[string]int) []string {
 	}
 	sort.Strings(ks)
 	return ks
+}
+
+// stageNodes lists the partially qualified names (as --overrides wants them) of
+// every stage call reachable from the top-level call, and of the pipeline calls
+// on the way.
+func stageNodes(p *Prog) (stages, pipes []string) {
+	var walk func(c *CallDef, prefix string)
+	walk = func(c *CallDef, prefix string) {
+		name := c.Id
+		if prefix != "" {
+			name = prefix + "." + c.Id
+		}
+		if pl := p.Pipeline(c.Callee); pl != nil {
+			pipes = append(pipes, name)
+			for _, cc := range pl.Calls {
+				walk(cc, name)
+			}
+			return
+		}
+		stages = append(stages, name)
+	}
+	walk(p.Top, "")
+	return
+}
+
+// forceVolatile looks an override up the way martian documents it: the nearest
+// enclosing node which sets force_volatile decides.
+func (r *Run) forceVolatile(node string) (val, set bool) {
+	pqn := strings.ReplaceAll(node, "/", ".")
+	for pqn != "" {
+		if o, ok := r.Cfg.Overrides[pqn]; ok {
+			if v, ok := o["force_volatile"].(bool); ok {
+				return v, true
+			}
+		}
+		i := strings.LastIndexByte(pqn, '.')
+		if i < 0 {
+			break
+		}
+		pqn = pqn[:i]
+	}
+	return false, false
 }
